@@ -1,21 +1,24 @@
-//! The simulator core: one OS thread runs one execution at a time; simulated
-//! threads are shuttle coroutines on that OS thread; this module owns
+//! The simulator core. A worker process runs one execution at a time. Every
+//! simulated thread is a real OS thread (so thread identity and thread-locals
+//! are real), but exactly one of them runs at any moment: the one holding the
+//! *baton*. At every scheduling point (the `cfg(jiff_verif)` sites inside
+//! jiff, and the harness's own points) the holder asks the scheduler who runs
+//! next and, if it is somebody else, hands the baton over and parks. This
+//! module owns
 //!
-//! * the scheduler (`SimSched`): every interleaving decision is drawn from the
-//!   run's PRNG (random / PCT-style policies) or from an explicit recorded
-//!   choice list (replay), and every decision is recorded;
+//! * the scheduler: every interleaving decision is drawn from the run's PRNG
+//!   (random / PCT-style policies) or from an explicit recorded choice list
+//!   (replay), and every decision is recorded;
 //! * the simulated monotonic clock (the only clock jiff's caches read);
 //! * the event log (global sequence numbers) and its fingerprint;
 //! * the hooks installed into jiff's `cfg(jiff_verif)` seams;
 //! * deadlock detection and the step bound (cooperative abort).
 //!
-//! All state is OS-thread-local, so 16 workers simulate independently.
+//! The state is process-global (workers are separate processes).
 
-use std::cell::RefCell;
 use std::sync::atomic::{AtomicBool, Ordering};
+use std::sync::{Condvar, Mutex, MutexGuard};
 use std::time::{Duration, Instant};
-
-use shuttle::scheduler::{Schedule, Scheduler, Task, TaskId};
 
 use crate::rng::{Fnv, Rng};
 
@@ -39,6 +42,15 @@ pub enum Policy {
 pub enum Abort {
     Deadlock,
     StepBound,
+    /// No task can run although not all are finished: a harness bug.
+    Stuck,
+}
+
+#[derive(Clone, Debug, Default)]
+struct TaskState {
+    done: bool,
+    /// Parked in `join` until that task is done.
+    waiting_on: Option<usize>,
 }
 
 /// Payload used to unwind simulated threads when a run is aborted.
@@ -63,6 +75,7 @@ pub struct Ev {
 
 pub struct RunRt {
     pub active: bool,
+    tasks: Vec<TaskState>,
     pub policy: Policy,
     pub srng: Rng,
     pub replay: Vec<u16>,
@@ -107,6 +120,7 @@ impl RunRt {
     fn new() -> RunRt {
         RunRt {
             active: false,
+            tasks: vec![],
             policy: Policy::Random { stick: 0 },
             srng: Rng::new(0),
             replay: vec![],
@@ -143,6 +157,7 @@ impl RunRt {
 
     fn reset(&mut self, policy: Policy, sched_seed: u64, replay: Vec<u16>) {
         self.active = true;
+        self.tasks = vec![TaskState::default()];
         self.policy = policy;
         self.srng = Rng::new(sched_seed);
         self.replay = replay;
@@ -207,12 +222,20 @@ impl RunRt {
     }
 }
 
-thread_local! {
-    static RT: RefCell<RunRt> = RefCell::new(RunRt::new());
+static RT: Mutex<Option<RunRt>> = Mutex::new(None);
+static CV: Condvar = Condvar::new();
+
+fn lock_rt() -> MutexGuard<'static, Option<RunRt>> {
+    let mut g = RT.lock().unwrap_or_else(|e| e.into_inner());
+    if g.is_none() {
+        *g = Some(RunRt::new());
+    }
+    g
 }
 
 pub fn with_rt<R>(f: impl FnOnce(&mut RunRt) -> R) -> R {
-    RT.with(|rt| f(&mut rt.borrow_mut()))
+    let mut g = lock_rt();
+    f(g.as_mut().unwrap())
 }
 
 /// Real instant all simulated instants are offsets from. Only differences
@@ -226,120 +249,188 @@ fn base_instant() -> Instant {
 // Scheduler
 // ---------------------------------------------------------------------------
 
-pub struct SimSched {
-    pending: bool,
+impl RunRt {
+    fn runnable(&self) -> Vec<usize> {
+        (0..self.tasks.len())
+            .filter(|&i| {
+                let t = &self.tasks[i];
+                !t.done && t.waiting_on.map_or(true, |w| self.tasks[w].done)
+            })
+            .collect()
+    }
+
+    /// Decides who runs next. `cur`: the task making the decision (still
+    /// runnable or not); `is_yielding`: it found its lock busy.
+    fn choose(&mut self, cur: Option<usize>, is_yielding: bool) -> Option<usize> {
+        let ids = self.runnable();
+        if ids.is_empty() {
+            return None;
+        }
+        self.steps += 1;
+        if self.abort.is_none() {
+            if self.steps > self.max_steps {
+                self.abort = Some(Abort::StepBound);
+            } else {
+                // Deadlock: every runnable task has found its lock busy
+                // since the last event of any kind.
+                let all_blocked = ids
+                    .iter()
+                    .all(|&id| id < MAX_TASKS && self.blocked & (1 << id) != 0);
+                if all_blocked {
+                    self.abort = Some(Abort::Deadlock);
+                }
+            }
+        }
+        let cur_runnable = cur.map_or(false, |c| ids.contains(&c));
+        let choice = match self.policy {
+            Policy::Random { stick } => {
+                if is_yielding && ids.len() > 1 && cur_runnable {
+                    // A spinning task gives way to anybody else.
+                    let others: Vec<usize> =
+                        ids.iter().copied().filter(|&i| Some(i) != cur).collect();
+                    *self.srng.pick(&others)
+                } else if cur_runnable
+                    && !is_yielding
+                    && stick > 0
+                    && self.srng.below(16) < stick as u64
+                {
+                    cur.unwrap()
+                } else {
+                    *self.srng.pick(&ids)
+                }
+            }
+            Policy::Pct { .. } => {
+                for &i in &ids {
+                    let i = i.min(MAX_TASKS - 1);
+                    if self.pct_seen & (1 << i) == 0 {
+                        self.pct_seen |= 1 << i;
+                        self.pct_prio[i] = (1 << 32) + (self.srng.next_u64() >> 32);
+                    }
+                }
+                if let Some(c) = cur {
+                    let c = c.min(MAX_TASKS - 1);
+                    let at_point = self.pct_points.contains(&self.steps);
+                    if at_point || is_yielding {
+                        self.pct_low -= 1;
+                        self.pct_prio[c] = self.pct_low;
+                    }
+                }
+                *ids.iter()
+                    .max_by_key(|&&i| self.pct_prio[i.min(MAX_TASKS - 1)])
+                    .unwrap()
+            }
+            Policy::Replay => {
+                let want = self.replay.get(self.replay_pos).copied();
+                self.replay_pos += 1;
+                match want {
+                    Some(w) if ids.contains(&(w as usize)) => w as usize,
+                    _ => {
+                        if is_yielding && ids.len() > 1 && cur_runnable {
+                            *ids.iter().find(|&&i| Some(i) != cur).unwrap()
+                        } else if cur_runnable {
+                            cur.unwrap()
+                        } else {
+                            ids[0]
+                        }
+                    }
+                }
+            }
+        };
+        if Some(choice) != cur {
+            self.switches += 1;
+        }
+        self.choices.push(choice as u16);
+        Some(choice)
+    }
 }
 
-impl Scheduler for SimSched {
-    fn new_execution(&mut self) -> Option<Schedule> {
-        if self.pending {
-            self.pending = false;
-            Some(Schedule::new(0))
-        } else {
-            None
+/// A scheduling point of the running task `me`.
+fn switch(is_yielding: bool) {
+    let mut g = lock_rt();
+    let rt = g.as_mut().unwrap();
+    let me = rt.cur_task;
+    match rt.choose(Some(me), is_yielding) {
+        Some(next) if next == me => {}
+        Some(next) => {
+            rt.cur_task = next;
+            CV.notify_all();
+            while g.as_ref().unwrap().cur_task != me {
+                g = CV.wait(g).unwrap_or_else(|e| e.into_inner());
+            }
+        }
+        None => {}
+    }
+}
+
+pub struct JoinHandle {
+    id: usize,
+    os: std::thread::JoinHandle<()>,
+}
+
+/// Spawns a simulated thread: a real OS thread that runs only while it
+/// holds the baton.
+pub fn spawn<F: FnOnce() + Send + 'static>(f: F) -> JoinHandle {
+    let id = with_rt(|rt| {
+        rt.tasks.push(TaskState::default());
+        rt.tasks.len() - 1
+    });
+    let os = std::thread::Builder::new()
+        .stack_size(1 << 20)
+        .spawn(move || {
+            {
+                let mut g = lock_rt();
+                while g.as_ref().unwrap().cur_task != id {
+                    g = CV.wait(g).unwrap_or_else(|e| e.into_inner());
+                }
+            }
+            let _ = std::panic::catch_unwind(std::panic::AssertUnwindSafe(f));
+            // Finished: pass the baton on for good.
+            let mut g = lock_rt();
+            let rt = g.as_mut().unwrap();
+            rt.tasks[id].done = true;
+            rt.blocked = 0;
+            match rt.choose(None, false) {
+                Some(next) => rt.cur_task = next,
+                None => {
+                    rt.abort.get_or_insert(Abort::Stuck);
+                    rt.cur_task = 0;
+                }
+            }
+            CV.notify_all();
+        })
+        .expect("spawn simulated thread");
+    JoinHandle { id, os }
+}
+
+/// Parks the running task until the given simulated thread has finished.
+pub fn join(h: JoinHandle) {
+    {
+        let mut g = lock_rt();
+        let rt = g.as_mut().unwrap();
+        let me = rt.cur_task;
+        if !rt.tasks[h.id].done {
+            rt.tasks[me].waiting_on = Some(h.id);
+            match rt.choose(None, false) {
+                Some(next) => rt.cur_task = next,
+                None => {
+                    rt.abort.get_or_insert(Abort::Stuck);
+                }
+            }
+            CV.notify_all();
+            loop {
+                let rt = g.as_mut().unwrap();
+                if rt.cur_task == me && rt.tasks[h.id].done {
+                    break;
+                }
+                if rt.cur_task == me && rt.abort == Some(Abort::Stuck) {
+                    break;
+                }
+                g = CV.wait(g).unwrap_or_else(|e| e.into_inner());
+            }
+            g.as_mut().unwrap().tasks[me].waiting_on = None;
         }
     }
-
-    fn next_task(
-        &mut self,
-        runnable: &[&Task],
-        current: Option<TaskId>,
-        is_yielding: bool,
-    ) -> Option<TaskId> {
-        with_rt(|rt| {
-            rt.steps += 1;
-            if rt.abort.is_none() {
-                if rt.steps > rt.max_steps {
-                    rt.abort = Some(Abort::StepBound);
-                } else {
-                    // Deadlock: every runnable task has found its lock busy
-                    // since the last event of any kind.
-                    let all_blocked = runnable.iter().all(|t| {
-                        let id = usize::from(t.id());
-                        id < MAX_TASKS && rt.blocked & (1 << id) != 0
-                    });
-                    if all_blocked {
-                        rt.abort = Some(Abort::Deadlock);
-                    }
-                }
-            }
-            let cur = current.map(usize::from);
-            let ids: Vec<usize> =
-                runnable.iter().map(|t| usize::from(t.id())).collect();
-            debug_assert!(!ids.is_empty());
-            let cur_runnable = cur.map_or(false, |c| ids.contains(&c));
-            let choice = match rt.policy {
-                Policy::Random { stick } => {
-                    if is_yielding && ids.len() > 1 && cur_runnable {
-                        // A spinning task gives way to anybody else.
-                        let others: Vec<usize> = ids
-                            .iter()
-                            .copied()
-                            .filter(|&i| Some(i) != cur)
-                            .collect();
-                        *rt.srng.pick(&others)
-                    } else if cur_runnable
-                        && !is_yielding
-                        && stick > 0
-                        && rt.srng.below(16) < stick as u64
-                    {
-                        cur.unwrap()
-                    } else {
-                        *rt.srng.pick(&ids)
-                    }
-                }
-                Policy::Pct { .. } => {
-                    for &i in &ids {
-                        let i = i.min(MAX_TASKS - 1);
-                        if rt.pct_seen & (1 << i) == 0 {
-                            rt.pct_seen |= 1 << i;
-                            rt.pct_prio[i] =
-                                (1 << 32) + (rt.srng.next_u64() >> 32);
-                        }
-                    }
-                    if let Some(c) = cur {
-                        let c = c.min(MAX_TASKS - 1);
-                        let at_point = rt.pct_points.contains(&rt.steps);
-                        if at_point || is_yielding {
-                            rt.pct_low -= 1;
-                            rt.pct_prio[c] = rt.pct_low;
-                        }
-                    }
-                    *ids.iter()
-                        .max_by_key(|&&i| rt.pct_prio[i.min(MAX_TASKS - 1)])
-                        .unwrap()
-                }
-                Policy::Replay => {
-                    let want = rt.replay.get(rt.replay_pos).copied();
-                    rt.replay_pos += 1;
-                    match want {
-                        Some(w) if ids.contains(&(w as usize)) => w as usize,
-                        _ => {
-                            if is_yielding && ids.len() > 1 && cur_runnable {
-                                *ids.iter()
-                                    .find(|&&i| Some(i) != cur)
-                                    .unwrap()
-                            } else if cur_runnable {
-                                cur.unwrap()
-                            } else {
-                                ids[0]
-                            }
-                        }
-                    }
-                }
-            };
-            if Some(choice) != cur {
-                rt.switches += 1;
-            }
-            rt.cur_task = choice;
-            rt.choices.push(choice as u16);
-            Some(TaskId::from(choice))
-        })
-    }
-
-    fn next_u64(&mut self) -> u64 {
-        with_rt(|rt| rt.srng.next_u64())
-    }
+    let _ = h.os.join();
 }
 
 // ---------------------------------------------------------------------------
@@ -355,7 +446,8 @@ pub struct ExecOutcome {
     pub escaped_panic: Option<String>,
 }
 
-/// Runs `body` once as task 0 of a fresh execution under `policy`.
+/// Runs `body` once as task 0 (on the calling thread) of a fresh execution
+/// under `policy`.
 pub fn exec_one<F>(
     policy: Policy,
     sched_seed: u64,
@@ -371,14 +463,8 @@ where
         rt.reset(policy, sched_seed, replay);
         rt.max_steps = max_steps;
     });
-    let mut cfg = shuttle::Config::new();
-    cfg.failure_persistence = shuttle::FailurePersistence::None;
-    cfg.max_steps = shuttle::MaxSteps::None;
-    cfg.silence_warnings = true;
-    cfg.stack_size = 0x40000;
-    let runner = shuttle::Runner::new(SimSched { pending: true }, cfg);
     let res = std::panic::catch_unwind(std::panic::AssertUnwindSafe(|| {
-        runner.run(body);
+        body();
     }));
     let escaped_panic = match res {
         Ok(()) => None,
@@ -436,12 +522,13 @@ fn set_quiet_hook() {
         if VERBOSE_PANICS.load(Ordering::Relaxed) {
             eprintln!("[jiffsim] panic: {msg}");
         }
-        // `try_with`/`try_borrow_mut`: never panic inside the hook.
-        let _ = RT.try_with(|rt| {
-            if let Ok(mut rt) = rt.try_borrow_mut() {
+        // `try_lock`: never block or panic inside the hook (the panicking
+        // thread may hold the lock).
+        if let Ok(mut g) = RT.try_lock() {
+            if let Some(rt) = g.as_mut() {
                 rt.last_panic = Some(msg);
             }
-        });
+        }
     }));
 }
 
@@ -456,12 +543,6 @@ pub fn init_once() {
             monotonic: hook_monotonic,
             fault: hook_fault,
         });
-        // Let shuttle install its (printing) panic hook first, then replace
-        // it: the harness does its own failure persistence.
-        let mut cfg = shuttle::Config::new();
-        cfg.failure_persistence = shuttle::FailurePersistence::None;
-        cfg.silence_warnings = true;
-        shuttle::Runner::new(SimSched { pending: true }, cfg).run(|| {});
         set_quiet_hook();
     });
 }
@@ -486,7 +567,7 @@ fn hook_point(site: &'static str) {
         rt.hit(site);
         rt.push_event(What::Site(site));
     });
-    shuttle::thread::sleep(Duration::ZERO);
+    switch(false);
     check_abort();
 }
 
@@ -503,7 +584,7 @@ fn hook_blocked(site: &'static str) {
         rt.blocked_calls += 1;
         rt.abort_site = Some(site);
     });
-    shuttle::thread::yield_now();
+    switch(true);
     check_abort();
 }
 
@@ -555,7 +636,7 @@ pub fn yield_point(name: &'static str) {
     with_rt(|rt| {
         rt.push_event(What::Note(name));
     });
-    shuttle::thread::sleep(Duration::ZERO);
+    switch(false);
     check_abort();
 }
 
